@@ -168,6 +168,41 @@ def rule_c09(prog, rep):
                     rep.violation('E3', f, x.get('_line'), 'size-store:%s' % canon(l), '%s changes the recorded size of an element that is '
                                   'linked in the list (%s) without adjusting the byte total: datasum no longer equals the sum of the '
                                   'element sizes' % (f.name, canon(x)[:60]))
+    # ---- E6: the size limit is configuration: written by the constructor and by setsize only
+    rep.rule('E6', 'the size limit (max) is written only by the constructor and by setsize - block fills (memset from a field '
+                   'onwards) are followed through the record layout')
+    order = []
+    for u in prog.units:
+        if 'qlist_s' in u.record_fields:
+            order = [fl['name'] for fl in u.record_fields['qlist_s']]
+            break
+    for f in sorted(prog.funcs_in(LIST), key=lambda x: x.line or 0):
+        if f.body is None:
+            continue
+        for x in walk(f.body):
+            hit = None
+            if x.get('kind') in ('BinaryOperator', 'CompoundAssignOperator') and (x.get('opcode') or '').endswith('=') \
+                    and x.get('opcode') not in ('==', '!=', '<=', '>='):
+                l = strip(children(x)[0])
+                if l.get('kind') == 'MemberExpr' and l.get('name') == 'max' and (l.get('_field') or ('',))[0] == 'qlist_s':
+                    hit = 'store'
+            elif x.get('kind') == 'CallExpr' and (strip(children(x)[0]).get('referencedDecl') or {}).get('name') in ('memset', '__builtin_memset', 'memcpy', 'memmove'):
+                d = strip(children(x)[1]) if len(children(x)) > 1 else {}
+                if d.get('kind') == 'UnaryOperator' and d.get('opcode') == '&':
+                    m = strip(children(d)[0])
+                    if m.get('kind') == 'MemberExpr' and (m.get('_field') or ('',))[0] == 'qlist_s' and m.get('name') in order \
+                            and 'max' in order and order.index(m.get('name')) <= order.index('max'):
+                        n_ = int_value(children(x)[3]) if len(children(x)) > 3 else None
+                        if not (isinstance(n_, int) and n_ <= 8 and m.get('name') != 'max'):
+                            hit = 'block fill starting at %s' % m.get('name')
+            if not hit:
+                continue
+            rep.instance('E6')
+            ok = f.name in ('qlist', 'qlist_setsize')
+            rep.oblige('E6', ok, {'function': f.name, 'line': x.get('_line'), 'write': hit})
+            if not ok:
+                rep.violation('E6', f, x.get('_line'), 'max-write:%s' % f.name, '%s overwrites the size limit (%s): a configured maximum '
+                              'silently changes, later insertions beyond it are accepted' % (f.name, hit))
     # ---- E5: index -> node lookup: the scan starts only for 0 <= index < num
     rep.rule('E5', 'the index-to-node lookup starts its scan only under the must-facts 0 <= index < num (a negative index that is '
                    'still negative after adding num is refused; the signedness of each comparison is taken from its operand types)')
